@@ -576,6 +576,9 @@ def b_int(it, args, kwargs, node):
     if isinstance(v, (SymV, UnkV)):
         if not (isinstance(v, SymV) and v.kind in ('int',)):
             it.may_raise(ValueError, node, f'int({v!r})', wire='wire' in value_tags(v))
+        if isinstance(v, SymV) and v.kind in ('decimal', 'float'):
+            # Decimal('Infinity') / float('inf') are values: int() of them is OverflowError (NaN is the ValueError above)
+            it.may_raise(OverflowError, node, f'int({v!r}) of an infinite value', wire='wire' in value_tags(v))
         s = it.fresh('t')
         it.store.declare(s, None, None, info=f'int({v!r})')
         it.origin[s] = ('int', v, base)
